@@ -5,7 +5,7 @@ import (
 	"os"
 	"strings"
 
-	"verifharness/internal/h"
+	"verifharness/pkg/h"
 
 	"github.com/dunglas/mercure"
 )
